@@ -1117,7 +1117,9 @@ def run_basis_case(ctx, J, ops, Q, fam, dims, order, tree, rng):
     J.judge(res, in_order, "fold")
 
 
-def run_embed_case(ctx, J, QOperation, Q, nq, rng):
+def run_embed_case(ctx, J, QOperation, Q, nq, rng, ops=None):
+    if ops is None:
+        import quara.objects.operators as ops
     views = J.views
     emb = QOperation.embed_qoperation_from_qutrits_to_qubits
     names3 = pick_names(rng, nq)
@@ -1172,6 +1174,29 @@ def run_embed_case(ctx, J, QOperation, Q, nq, rng):
                 res["povm.gate.mprocess.state"] = np.array([born(f["gate"].at(())[0] @ (e @ r)) for e in es])
         return res
 
+    if nq == 2:
+        # Embedding respects the subsystem structure: qutrit k (ascending name) goes to the k-th pair of qubits
+        # (ascending name), i.e. embedding commutes with the tensor product.  Separately embedded one-qutrit states,
+        # tensored, must be the joint embedding of their product (this is how embedded inputs of a jointly embedded
+        # two-qutrit gate / POVM are built; a layout that is only self-consistent for all-joint embeddings is not
+        # enough - missed seeded change C07-3).
+        es3 = sorted(c3.elemental_systems, key=lambda e: e.name)
+        q_sorted = sorted(qubits, key=lambda e: e.name)
+        ca, cb = Q.CompositeSystem([es3[0]]), Q.CompositeSystem([es3[1]])
+        ra, rb = ref.rand_density(3, rng), ref.rand_density(3, rng)
+        sa, sb = gen.make_state(ca, ra), gen.make_state(cb, rb)
+        ok1, joint = ctx.attempt(emb, ops.tensor_product(sa, sb), list(qubits))
+        ok2, ea = ctx.attempt(emb, sa, q_sorted[0:2])
+        ok3, eb = ctx.attempt(emb, sb, q_sorted[2:4])
+        if ok1 and ok2 and ok3:
+            ok4, prod = ctx.attempt(ops.tensor_product, ea, eb)
+            if ok4:
+                Bj = gen.basis_of(joint.composite_system)
+                Bp = gen.basis_of(prod.composite_system)
+                same_sys = [e.name for e in joint.composite_system.elemental_systems] == [e.name for e in prod.composite_system.elemental_systems]
+                err = float(np.max(np.abs(ref.op(Bj, joint.vec) - ref.op(Bp, prod.vec)))) if same_sys else float("inf")
+                ctx.num("embed.commutes-with-tensor-product", err, TP, TF, key="embed:State:q=2:joint-embedding-differs-from-product-of-embeddings",
+                        info=dict(desc, note="embed(rhoA (x) rhoB) vs embed(rhoA) (x) embed(rhoB)"))
     before = stats({k: src[k] for k in out})
     after = stats(out)
     for chain in before:
@@ -1205,7 +1230,7 @@ def run_shard(ctx):
             fam = u["family"]
             t_case = time.process_time()
             if fam == "Embed":
-                run_embed_case(ctx, J, QOperation, Q, u["q"], rng)
+                run_embed_case(ctx, J, QOperation, Q, u["q"], rng, ops)
             elif fam in ("Basis", "SparseBasis"):
                 run_basis_case(ctx, J, ops, Q, fam, u["dims"], order, tree, rng)
             else:
